@@ -110,15 +110,19 @@ class RuleSet:
 
 def gen_ruleset(rng, nrules=None, depth=None, csize=256, p_sc=0.4, p_bol=0.15, p_trail=0.15,
                 p_caseins=0.15, allow_nul=True, allow_nullable=False, union_negated=True,
-                allow_var_trail=True, maxrep=4, p_chain=0.0):
+                allow_var_trail=True, maxrep=4, p_chain=0.0, p_posix=0.08):
     rs = RuleSet()
     rs.csize = csize
     rs.caseins = rng.random() < p_caseins
+    if rng.random() < p_posix:
+        # %option posix-compat: `ab{2}` is `(ab){2}`; the (?...) groups are not available
+        rs.posix_prec = True
+        rs.options = list(rs.options) + ['posix-compat']
     if rng.random() < p_sc:
         for k in range(rng.choice([1, 1, 2, 3])):
             rs.scs.append(('SC%d' % (k + 1), rng.random() < 0.5))
     g = patgen.Gen(rng, csize=csize, allow_nul=allow_nul, caseins=rs.caseins,
-                   union_negated=union_negated, maxrep=maxrep)
+                   union_negated=union_negated, maxrep=maxrep, allow_flags=not rs.posix_prec)
     if nrules is None:
         nrules = rng.choice([1, 2, 3, 4, 5, 6, 8, 10])
     for _ in range(nrules):
